@@ -111,13 +111,18 @@ type jconn struct {
 	writeN      atomic.Int64
 	failReadAt  int64 // -1: never
 	failWriteAt int64 // -1: never
-	faultHit    atomic.Int64
-	closes      atomic.Int32
-	closeWrites atomic.Int32
-	closeTick   atomic.Int64
-	cwTick      atomic.Int64
-	closed      chan struct{}
-	closeOnce   sync.Once
+	// failWriteCall k > 0: the k-th Write call delivers a prefix of its buffer
+	// to the peer and returns (n > 0, error) - a failure in the middle of a write.
+	failWriteCall int64
+	writeCalls    atomic.Int64
+	partialN      atomic.Int64 // bytes delivered by the partially failed write
+	faultHit      atomic.Int64
+	closes        atomic.Int32
+	closeWrites   atomic.Int32
+	closeTick     atomic.Int64
+	cwTick        atomic.Int64
+	closed        chan struct{}
+	closeOnce     sync.Once
 	// closeGate, if set, makes Close return only once the harness opened the
 	// gate (a connection whose teardown takes a while); the call itself is
 	// journaled at once.
@@ -145,6 +150,20 @@ func (c *jconn) Read(p []byte) (int, error) {
 }
 
 func (c *jconn) Write(p []byte) (int, error) {
+	if k := c.writeCalls.Add(1); c.failWriteCall > 0 && k >= c.failWriteCall && len(p) > 0 {
+		if k > c.failWriteCall {
+			return 0, errInjected // the connection stays failed
+		}
+		half := len(p) / 2
+		if half == 0 {
+			half = 1
+		}
+		n, _ := c.Conn.Write(p[:half])
+		c.writeN.Add(int64(n))
+		c.partialN.Store(int64(n))
+		c.faultHit.CompareAndSwap(0, c.clock.Add(1))
+		return n, errInjected
+	}
 	if c.failWriteAt >= 0 {
 		rem := c.failWriteAt - c.writeN.Load()
 		if rem < int64(len(p)) {
@@ -344,7 +363,7 @@ type linkSpec struct {
 	LA      int64  `json:"bytes_a_to_b"`
 	LB      int64  `json:"bytes_b_to_a"`
 	Mode    string `json:"mode"`  // concurrent | A-then-B | B-then-A | A-only | B-only | none
-	Fault   string `json:"fault"` // none | first-read-error | first-write-error | second-read-error | second-write-error | A-abort | B-abort | cancel
+	Fault   string `json:"fault"` // none | first-read-error | first-write-error | second-read-error | second-write-error | first-partial-write | second-partial-write | A-abort | B-abort | cancel
 	FaultAt int64  `json:"fault_at"`
 	SplitAt int64  `json:"split_at"`
 	Chunk   int    `json:"chunk_max"`
@@ -404,6 +423,19 @@ func genLink(rng *rand.Rand, modes, faults []string, big bool) linkSpec {
 	case "second-read-error", "first-write-error", "B-abort":
 		s.FaultAt = pick(s.LB, s.Fault == "second-read-error")
 	}
+	// partial writes: FaultAt is the 1-based index of the Write call that fails
+	// half way. io.Copy moves at most 32 KiB per Write, so a direction carrying
+	// L >= 1 bytes sees at least ceil(L/32 KiB) Write calls.
+	switch s.Fault {
+	case "first-partial-write":
+		if s.LB > 0 {
+			s.FaultAt = 1 + rng.Int63n((s.LB+32767)/32768)
+		}
+	case "second-partial-write":
+		if s.LA > 0 {
+			s.FaultAt = 1 + rng.Int63n((s.LA+32767)/32768)
+		}
+	}
 	if s.Fault != "none" && s.FaultAt < 0 {
 		s.Fault = "none"
 	}
@@ -436,6 +468,10 @@ func newLink(spec linkSpec, salt uint64, seed int64) (*link, error) {
 		l.second.failReadAt = spec.FaultAt
 	case "second-write-error":
 		l.second.failWriteAt = spec.FaultAt
+	case "first-partial-write":
+		l.first.failWriteCall = spec.FaultAt
+	case "second-partial-write":
+		l.second.failWriteCall = spec.FaultAt
 	}
 	saltAB, saltBA := mix64(salt*2+1), mix64(salt*2+2)
 	pa := peerPlan{Len: spec.LA, HalfClose: spec.aHalfCloses(), AbortAt: -1, ChunkMax: spec.Chunk}
@@ -464,8 +500,8 @@ func (l *link) journal() map[string]any {
 		"spec":   l.Spec,
 		"A":      map[string]any{"sent": l.A.sent.Load(), "received": l.A.recv.Load(), "reader_end": end(l.A), "reader_end_tick": l.A.endTick.Load(), "first_mismatch_at": l.A.mismatchAt.Load(), "send_error": l.A.sendErr.Load(), "stuck": l.A.stuck.Load()},
 		"B":      map[string]any{"sent": l.B.sent.Load(), "received": l.B.recv.Load(), "reader_end": end(l.B), "reader_end_tick": l.B.endTick.Load(), "first_mismatch_at": l.B.mismatchAt.Load(), "send_error": l.B.sendErr.Load(), "stuck": l.B.stuck.Load()},
-		"first":  map[string]any{"read": l.first.readN.Load(), "written": l.first.writeN.Load(), "close_calls": l.first.closes.Load(), "close_tick": l.first.closeTick.Load(), "closewrite_calls": l.first.closeWrites.Load(), "closewrite_tick": l.first.cwTick.Load(), "fault_tick": l.first.faultHit.Load()},
-		"second": map[string]any{"read": l.second.readN.Load(), "written": l.second.writeN.Load(), "close_calls": l.second.closes.Load(), "close_tick": l.second.closeTick.Load(), "closewrite_calls": l.second.closeWrites.Load(), "closewrite_tick": l.second.cwTick.Load(), "fault_tick": l.second.faultHit.Load()},
+		"first":  map[string]any{"read": l.first.readN.Load(), "written": l.first.writeN.Load(), "close_calls": l.first.closes.Load(), "close_tick": l.first.closeTick.Load(), "closewrite_calls": l.first.closeWrites.Load(), "closewrite_tick": l.first.cwTick.Load(), "fault_tick": l.first.faultHit.Load(), "write_calls": l.first.writeCalls.Load(), "partial_write_delivered": l.first.partialN.Load()},
+		"second": map[string]any{"read": l.second.readN.Load(), "written": l.second.writeN.Load(), "close_calls": l.second.closes.Load(), "close_tick": l.second.closeTick.Load(), "closewrite_calls": l.second.closeWrites.Load(), "closewrite_tick": l.second.cwTick.Load(), "fault_tick": l.second.faultHit.Load(), "write_calls": l.second.writeCalls.Load(), "partial_write_delivered": l.second.partialN.Load()},
 	}
 }
 
@@ -708,13 +744,31 @@ func runDirect(r *vk.Run, dc directCase) (sig string, hang bool) {
 			if af != uint64(s.LB) || as != uint64(s.LA) {
 				lr.violate(l, "audit-mismatch", fmt.Sprintf("first auditor %d (bytes written to first: %d), second auditor %d (bytes written to second: %d)", af, s.LB, as, s.LA))
 			}
-		} else if af > uint64(s.LB) || as > uint64(s.LA) {
-			lr.violate(l, "audit-mismatch", fmt.Sprintf("first auditor %d > %d bytes sent towards first, or second auditor %d > %d", af, s.LB, as, s.LA))
+		} else {
+			if af > uint64(s.LB) || as > uint64(s.LA) {
+				lr.violate(l, "audit-mismatch", fmt.Sprintf("first auditor %d > %d bytes sent towards first, or second auditor %d > %d", af, s.LB, as, s.LA))
+			}
+			// Lower bound: every byte a peer received was reported as written by
+			// some Write call, so the auditor of that connection must (at
+			// quiescence - the last Write may return after ForwardAndClose did)
+			// have seen at least as many bytes as the peer read.
+			gotA, gotB := uint64(l.A.recv.Load()), uint64(l.B.recv.Load())
+			switch c33health.waitCond(func() bool { return audFirst.Load() >= gotA && audSecond.Load() >= gotB }, hangBound) {
+			case "ok":
+				r.Count("direct_audit_lower_bound_checks", 1)
+			case "hang":
+				lr.violate(l, "audit-below-delivered", fmt.Sprintf("first auditor %d but peer A received %d bytes; second auditor %d but peer B received %d bytes (fault %s@%d)", audFirst.Load(), gotA, audSecond.Load(), gotB, s.Fault, s.FaultAt))
+			default:
+				r.Inconclusive("scheduler-unhealthy")
+			}
 		}
 	}
 	r.Count("direct_bytes_relayed", l.A.recv.Load()+l.B.recv.Load())
 	if dc.FullDuplex {
 		r.Count("full_duplex_overlap_bytes", l.overlapBytes())
+	}
+	if n := l.first.partialN.Load() + l.second.partialN.Load(); n > 0 {
+		r.Count("direct_partial_writes_delivering_a_prefix", 1)
 	}
 	if s.Fault != "none" && s.Fault != "cancel" && s.Fault != "A-abort" && s.Fault != "B-abort" {
 		if l.first.faultHit.Load() == 0 && l.second.faultHit.Load() == 0 {
@@ -751,7 +805,7 @@ func fullDuplexLink(rng *rand.Rand, quick bool) linkSpec {
 }
 
 var allModes = []string{"concurrent", "concurrent", "A-then-B", "B-then-A", "A-only", "B-only", "none"}
-var allFaults = []string{"none", "none", "none", "none", "first-read-error", "first-write-error", "second-read-error", "second-write-error", "A-abort", "B-abort", "cancel", "cancel"}
+var allFaults = []string{"none", "none", "none", "none", "none", "first-read-error", "first-write-error", "second-read-error", "second-write-error", "first-partial-write", "second-partial-write", "first-partial-write", "second-partial-write", "A-abort", "B-abort", "cancel", "cancel"}
 
 func c33() {
 	r := vk.Start("C33", "exploration")
@@ -843,7 +897,7 @@ func c33() {
 	r.Note("heartbeat_max_gap_ms", c33health.maxGap.Load()/1e6)
 	r.Assume("connections are unix stream socket pairs; 'half-close' is CloseWrite on the peer's end; an abrupt failure is Close of the peer's socket or an error injected by the wrapper at a byte offset")
 	r.Assume("'is closed / returns' is bounded progress: a violation needs >= 12 s (plus 1 ms per 64 KiB of payload) with a healthy heartbeat")
-	r.Finish("(i) ForwardAndClose over journaling net.Conn+CloseWrite wrappers on unix socket pairs: payloads 0..4 MiB per direction, six half-close orders (both concurrently, A then B, B then A, only A, only B, none), dedicated full-duplex cases (both peers streaming 1.5..4 MiB at the same time), wrapper read/write failures, abrupt peer closes and context cancellation at random byte offsets, with and without auditors; (ii) sessions created through forwarding.Manager with scripted endpoints (replacing the local protocol handler) handing out 1..64 such connections at once, totals read through Manager.List, including full-duplex sessions and sessions whose forwarding loop is torn down (source/destination transport failure, pause+resume) and re-established while earlier connections are still being closed; distinct = route x mode x fault x payload-size buckets (route i), connection-count bucket x fault mix x stay-open (route ii)", 25)
+	r.Finish("(i) ForwardAndClose over journaling net.Conn+CloseWrite wrappers on unix socket pairs: payloads 0..4 MiB per direction, six half-close orders (both concurrently, A then B, B then A, only A, only B, none), dedicated full-duplex cases (both peers streaming 1.5..4 MiB at the same time), wrapper read/write failures (including writes that deliver a prefix and return n>0 with an error), abrupt peer closes and context cancellation at random byte offsets, with and without auditors; (ii) sessions created through forwarding.Manager with scripted endpoints (replacing the local protocol handler) handing out 1..64 such connections at once, totals read through Manager.List, including full-duplex sessions and sessions whose forwarding loop is torn down (source/destination transport failure, pause+resume) and re-established while earlier connections are still being closed; distinct = route x mode x fault x payload-size buckets (route i), connection-count bucket x fault mix x stay-open (route ii)", 25)
 }
 
 func maxI64(a, b int64) int64 {
